@@ -35,10 +35,10 @@ BUDGET = {"quick": 500, "thorough": 3000}
 
 
 def cases(tier, seed):
-    out = [{"sub": "oniom", "i": i} for i in range(10 if tier == "quick" else 80)]
-    out += [{"sub": "link", "i": i} for i in range(8 if tier == "quick" else 100)]
-    out += [{"sub": "dmet", "i": i} for i in range(14 if tier == "quick" else 70)]
-    out += [{"sub": "mi", "i": i} for i in range(16 if tier == "quick" else 400)]
+    out = [{"sub": "oniom", "i": i} for i in range(10 if tier == "quick" else 320)]
+    out += [{"sub": "link", "i": i} for i in range(8 if tier == "quick" else 1000)]
+    out += [{"sub": "dmet", "i": i} for i in range(14 if tier == "quick" else 280)]
+    out += [{"sub": "mi", "i": i} for i in range(16 if tier == "quick" else 2000)]
     return out
 
 
